@@ -106,3 +106,7 @@ Definition g_oget (o : oslice) (i : Z) : R gsetting :=
 Definition g_oupd (o : oslice) (i : Z) (f : gsetting -> gsetting) : R oslice :=
   if (i <? 0) || (g_olen o <=? i) then Pan
   else Val (upd (fst o) (Z.to_nat i) (f (nth (Z.to_nat i) (fst o) gzero)), snd o).
+
+(* _, err := port.Write(x): the frame joins the port's output unless the write fails with the given error *)
+Definition g_port_write (port : list bytes) (x : bytes) (pw_err : option Z) : list bytes * option Z :=
+  match pw_err with None => (port ++ [x], None) | Some c => (port, Some c) end.
